@@ -198,7 +198,7 @@ def cases(ctx):
         yield ('hist', [('runtime', 'eval', 'round(1.5, 200)', 'fresh0', None, 0), ('ok', 'eval', '1 / 3', 'fresh0', None, 0)], False)
         yield ('hist', [('names-text', 'list_names_partial', 'msg.', 'fresh0', None, 3), ('names-text', 'list_names', 'not ready and ok', 'fresh0', None, 0)], False)
         yield ('hist', [('names-text', 'list_names_partial', 'a b c d', 'fresh0', None, 1), ('names-text', 'list_names', 'a b c d', 'fresh0', None, 0)], True)
-    for _ in range(ctx.scale(25, 500)):
+    for _ in range(ctx.scale(20, 400)):
         r = random.Random(rnd.getrandbits(48))
         yield ('hist', gen_history(r), r.random() < 0.4)
 
